@@ -510,6 +510,8 @@ func (fr *Frame) backEdge(li *loopInfo, from *ssa.BasicBlock) {
 
 // trInvariant translates a loop invariant at the loop header, with phis bound to fr.vals.
 func (fr *Frame) trInvariant(inv *Clause, li *loopInfo, st *State, entry *State) *Term {
+	fr.resolveState = st
+	defer func() { fr.resolveState = nil }()
 	env := fr.env(st)
 	env.entry = entry
 	env.where = inv.Where()
@@ -569,6 +571,11 @@ func (fr *Frame) resolveName(name string, li *loopInfo) (TV, bool) {
 	for _, fv := range fr.fn.FreeVars {
 		if fv.Name() == name {
 			if t, ok := fr.bindings[fv]; ok {
+				// a captured variable is a cell: the name denotes the value it holds now
+				if pt, isPtr := fv.Type().Underlying().(*types.Pointer); isPtr && fr.resolveState != nil {
+					e := fr.env(fr.resolveState)
+					return TV{e.loadPtr(fr.resolveState, t, pt.Elem()), pt.Elem()}, true
+				}
 				return TV{t, fv.Type()}, true
 			}
 		}
